@@ -266,6 +266,20 @@ def preimage(x, S, var):
                     return preimage(y, S.negate().shift(-1), var)
                 if c[2] == m >> 1:                 # flipping the top bit == adding 2^(N-1)
                     return preimage(y, S.shift(m >> 1), var)
+                # general constant: xor is a bijection that maps every aligned power-of-two block onto an aligned block
+                # of the same size, so each interval is cut into its (at most 2N) maximal aligned blocks
+                if len(S.ivs) <= 64:
+                    out = []
+                    for a, b in S.ivs:
+                        lo = a
+                        while lo <= b:
+                            size = (lo & -lo) if lo else m
+                            while size > b - lo + 1:
+                                size >>= 1
+                            base = (lo ^ c[2]) & ~(size - 1)
+                            out.append((base, base + size - 1))
+                            lo += size
+                    return preimage(y, ISet(S.bits, out), var)
         return None
     if t == "cast":
         kind, src, dst, y = x[1], x[2], x[3], x[4]
